@@ -38,13 +38,15 @@ def cond_worlds(tier):
     )
 
 
-def execute(spec):
+def execute(spec, must_finish=True):
     from pbt import simrun
     from pbt.runner import CaseResult
     from pbt.simprop import classes_of
 
     rec = simrun.run_world(spec)
-    rec._c07_must_finish = True
+    # the generated plan-ahead policy is not work-conserving (it may decline a task that fits), so only the greedy
+    # worlds promise that the join and its successors run
+    rec._c07_must_finish = must_finish
     res = CaseResult()
     res.classes = classes_of(rec)
     res.violations.extend(J.judge_c07(rec))
@@ -57,6 +59,6 @@ def execute(spec):
 
 CHECKS = [
     Check("conditional_sim", execute, strategy=cond_worlds, budget={"quick": 2500, "thorough": 50000}),
-    Check("scripted_sim", execute, strategy=lambda tier: specs.scripted_worlds(flags=cond_flags(), release_kinds=("fixed", "fixed", "poisson", "closed_loop")),
+    Check("scripted_sim", lambda spec: execute(spec, must_finish=False), strategy=lambda tier: specs.scripted_worlds(flags=cond_flags(), release_kinds=("fixed", "fixed", "poisson", "closed_loop")),
           budget={"quick": 500, "thorough": 30000}),
 ]
